@@ -404,6 +404,7 @@ Definition query_spec (F : file) (o : op) : answer :=
       | None => AErr EParse
       end
   | RefetchDwarf => ADone
+  | CUAtFailing _ e _ => AErr e
   end.
 
 (* ------------------------------------------------------------------ generators: positions and successors *)
@@ -636,6 +637,7 @@ Definition valid_op (F : file) (o : op) : bool :=
   | EGetTag n => has_dyn F && (0 <=? n)
   | ESectionTyped n _ => in_table n (f_shdrs F)
   | RefetchDwarf => true
+  | CUAtFailing off _ _ => negb (has_unit F off)
   end.
 
 (* ------------------------------------------------------------------ hypotheses of the refinement theorem *)
